@@ -68,3 +68,53 @@ package orchestrator
 
 //verif:closure of (*ConnectorOrchestrator).Delete calling PipelineService.AddConnector (c, ctx, pl, id) (rerr)
 //verif:call[undo-restores-the-reference] PipelineService.AddConnector requires arg1 == deref(pl).ID && arg2 == deref(id)
+
+// ---- ProcessorOrchestrator.Create / Delete --------------------------------------------
+//verif:func (*ProcessorOrchestrator).Create(p, ctx, plugin, parent, cfg, cond) (proc, err)
+//verif:call[only-api-provisioned-and-stopped] ProcessorService.Create requires txnOpen() && succeeded("(*ProcessorOrchestrator).getProcessorsPipeline") && pl.ProvisionedBy == ProvisionTypeAPI && result_of("pipeline.(*Instance).GetStatus", 0) != StatusRunning && arg2 == plugin && arg3 == parent && arg4 == cfg && arg6 == cond
+//verif:call[pipeline-reference-after-create-with-undo-registered] PipelineService.AddProcessor requires txnOpen() && succeeded("ProcessorService.Create") && count("rollback.(*R).Append") == 1 && parent.Type == ParentTypePipeline && arg1 == pl.ID && arg2 == result_of("ProcessorService.Create", 0).ID
+//verif:call[connector-reference-after-create-with-undo-registered] ConnectorService.AddProcessor requires txnOpen() && succeeded("ProcessorService.Create") && count("rollback.(*R).Append") == 1 && parent.Type == ParentTypeConnector && arg1 == parent.ID && arg2 == result_of("ProcessorService.Create", 0).ID
+//verif:call[commit-after-both-steps-with-both-undos] Transaction.Commit requires succeeded("ProcessorService.Create") && (succeeded("PipelineService.AddProcessor") || succeeded("ConnectorService.AddProcessor")) && count("rollback.(*R).Append") == 2
+//verif:call[skip-rollback-only-after-commit] rollback.(*R).Skip requires succeeded("Transaction.Commit")
+//verif:ensures[success-means-committed] err == nil ==> succeeded("Transaction.Commit") && called("rollback.(*R).Skip")
+//verif:ensures[failure-keeps-rollback-armed] err != nil ==> !called("rollback.(*R).Skip")
+
+//verif:closure of (*ProcessorOrchestrator).Create calling ProcessorService.Delete (p, ctx, proc) (rerr)
+//verif:call[undo-deletes-the-created-processor] ProcessorService.Delete requires arg1 == deref(proc).ID
+//verif:closure of (*ProcessorOrchestrator).Create calling PipelineService.RemoveProcessor (p, ctx, pl, proc) (rerr)
+//verif:call[undo-removes-the-added-reference] PipelineService.RemoveProcessor requires arg1 == deref(pl).ID && arg2 == deref(proc).ID
+//verif:closure of (*ProcessorOrchestrator).Create calling ConnectorService.RemoveProcessor (p, ctx, parent, proc) (rerr)
+//verif:call[undo-removes-the-added-reference] ConnectorService.RemoveProcessor requires arg1 == deref(parent).ID && arg2 == deref(proc).ID
+
+//verif:func (*ProcessorOrchestrator).Delete(p, ctx, id) (err)
+//verif:call[only-api-provisioned-and-stopped] ProcessorService.Delete requires txnOpen() && succeeded("ProcessorService.Get") && proc.ProvisionedBy == ProvisionTypeAPI && succeeded("(*ProcessorOrchestrator).getProcessorsPipeline") && result_of("pipeline.(*Instance).GetStatus", 0) != StatusRunning && arg1 == id
+//verif:call[pipeline-reference-removed-after-delete-with-undo-registered] PipelineService.RemoveProcessor requires txnOpen() && succeeded("ProcessorService.Delete") && count("rollback.(*R).Append") == 1 && proc.Parent.Type == ParentTypePipeline && arg1 == pl.ID && arg2 == proc.ID
+//verif:call[connector-reference-removed-after-delete-with-undo-registered] ConnectorService.RemoveProcessor requires txnOpen() && succeeded("ProcessorService.Delete") && count("rollback.(*R).Append") == 1 && proc.Parent.Type == ParentTypeConnector && arg1 == proc.Parent.ID && arg2 == proc.ID
+//verif:call[commit-after-both-steps-with-both-undos] Transaction.Commit requires succeeded("ProcessorService.Delete") && (succeeded("PipelineService.RemoveProcessor") || succeeded("ConnectorService.RemoveProcessor")) && count("rollback.(*R).Append") == 2
+//verif:call[skip-rollback-only-after-commit] rollback.(*R).Skip requires succeeded("Transaction.Commit")
+//verif:ensures[success-means-committed] err == nil ==> succeeded("Transaction.Commit") && called("rollback.(*R).Skip")
+//verif:ensures[failure-keeps-rollback-armed] err != nil ==> !called("rollback.(*R).Skip")
+
+//verif:closure of (*ProcessorOrchestrator).Delete calling ProcessorService.Create (err, p, ctx, id, proc) (rerr)
+//verif:call[undo-recreates-the-deleted-processor] ProcessorService.Create requires arg1 == deref(id) && arg2 == deref(proc).Plugin && arg3 == deref(proc).Parent && arg4 == deref(proc).Config && arg5 == ProvisionTypeAPI && arg6 == deref(proc).Condition
+//verif:closure of (*ProcessorOrchestrator).Delete calling PipelineService.AddProcessor (p, ctx, pl, proc) (rerr)
+//verif:call[undo-restores-the-reference] PipelineService.AddProcessor requires arg1 == deref(pl).ID && arg2 == deref(proc).ID
+//verif:closure of (*ProcessorOrchestrator).Delete calling ConnectorService.AddProcessor (p, ctx, proc) (rerr)
+//verif:call[undo-restores-the-reference] ConnectorService.AddProcessor requires arg1 == deref(proc).Parent.ID && arg2 == deref(proc).ID
+
+// The pipeline a processor belongs to: its parent pipeline, or the pipeline of its
+// parent connector.
+//verif:func (*ProcessorOrchestrator).getProcessorsPipeline(p, ctx, parent) (pl, err)
+//verif:call[the-parent-pipeline] PipelineService.Get requires parent.Type == ParentTypePipeline && arg1 == parent.ID || parent.Type == ParentTypeConnector && succeeded("ConnectorService.Get") && arg1 == result_of("ConnectorService.Get", 0).PipelineID
+//verif:ensures[unknown-parent-type-is-an-error] parent.Type != ParentTypePipeline && parent.Type != ParentTypeConnector ==> err != nil && !called("PipelineService.Get")
+
+// ---- PipelineOrchestrator: guards ----------------------------------------------------
+//verif:func (*PipelineOrchestrator).Update(po, ctx, id, cfg) (pl2, err)
+//verif:call[only-api-provisioned-and-stopped] PipelineService.Update requires succeeded("PipelineService.Get") && pl.ProvisionedBy == ProvisionTypeAPI && result_of("pipeline.(*Instance).GetStatus", 0) != StatusRunning && arg1 == pl.ID && arg2 == cfg
+//verif:func (*PipelineOrchestrator).UpdateDLQ(po, ctx, id, dlq) (pl2, err)
+//verif:call[only-api-provisioned-stopped-and-validated] PipelineService.UpdateDLQ requires succeeded("PipelineService.Get") && pl.ProvisionedBy == ProvisionTypeAPI && result_of("pipeline.(*Instance).GetStatus", 0) != StatusRunning && succeeded("(*ConnectorOrchestrator).Validate") && arg1 == id && arg2 == dlq
+//verif:call[dlq-plugin-validated-as-a-destination] (*ConnectorOrchestrator).Validate requires arg2 == TypeDestination && arg3 == dlq.Plugin && arg4.Settings == dlq.Settings
+//verif:func (*PipelineOrchestrator).Delete(po, ctx, id) (err)
+//verif:call[only-api-provisioned-stopped-and-empty] PipelineService.Delete requires succeeded("PipelineService.Get") && pl.ProvisionedBy == ProvisionTypeAPI && result_of("pipeline.(*Instance).GetStatus", 0) != StatusRunning && len(pl.ConnectorIDs) == 0 && len(pl.ProcessorIDs) == 0 && arg1 == pl.ID
+//verif:func invalidProcessorParentTypeErr(msg) (e)
+//verif:ensures e != nil
